@@ -10,22 +10,22 @@ git diff -- skchange > /tmp/wt/$name.patch
 [ -s /tmp/wt/$name.patch ] || { echo "no tracked change in $wt"; exit 2; }
 [ -f demo.py ] || { echo "no demo.py"; exit 2; }
 PYTHONPATH=$wt timeout 600 /venv/bin/python demo.py > /tmp/wt/$name.demo_with.txt 2>&1; with=$?
-git stash push -q -- skchange
+git apply -R /tmp/wt/$name.patch   # (no git stash: the stash stack is shared between worktrees)
 PYTHONPATH=$wt timeout 600 /venv/bin/python demo.py > /tmp/wt/$name.demo_without.txt 2>&1; without=$?
-git stash pop -q
+git apply /tmp/wt/$name.patch
 base=$(/verif/tools/baseline.py $wt | head -1)
 echo "demo with change: exit=$with ; without: exit=$without ; $base"
 results=""
 cd /verif
 for c in $prop "$@"; do
-  VERIF_REPO_ROOT=$wt ./check $c > /tmp/wt/$name.$c.out 2>&1; rc=$?
+  VERIF_EVIDENCE_DIR=/tmp/wt/ev VERIF_REPO_ROOT=$wt ./check $c > /tmp/wt/$name.$c.out 2>&1; rc=$?
   line="$c exit=$rc violations=$(grep -c '^VIOLATION' /tmp/wt/$name.$c.out) first=$(grep -m1 '^VIOLATION' /tmp/wt/$name.$c.out | sed 's/.*# //' | cut -c1-260)"
   echo "  $line"
   results="$results$line\n"
 done
-git -C /verif checkout -- evidence 2>/dev/null
+
 mkdir -p $out
-cp /tmp/wt/$name.patch $out/patch.diff; cp $wt/demo.py $out/demo.py; [ -f $wt/NOTES.md ] && cp $wt/NOTES.md $out/NOTES.md
+cp /tmp/wt/$name.patch $out/patch.diff; cp $wt/demo.py $out/demo.py; for f in MUTATION_NOTES.md NOTES.md; do [ -f $wt/$f ] && { cp $wt/$f $out/NOTES.md; break; }; done
 python3 - "$prop" "$name" "$with" "$without" "$base" "$results" <<'PY'
 import json,sys
 prop,name,w,wo,base,res=sys.argv[1:7]
